@@ -421,7 +421,8 @@ def _check_map(case):
         progs.set_log(None, None)
         if ex is not None:
             procs = list(getattr(ex, "_processes", {}).values()) if getattr(ex, "_processes", None) else []
-            ex.shutdown(wait=False, cancel_futures=True)
+            # (worker threads that are still running would write into the scratch folder after it has been removed)
+            ex.shutdown(wait=isinstance(ex, ThreadPoolExecutor), cancel_futures=True)
             for pr in procs:  # a pool whose workers never get their exit sentinel would block this process at exit
                 try:
                     pr.join(2)
